@@ -81,35 +81,57 @@ Example c28_relative_example :
   render_colon [(15, UD); (4, UH); (5, UM)] = S_ "-15d:4h:5m" /\ render_compact [(15, UD); (4, UH); (5, UM)] = S_ "-15d4h5m".
 Proof. split; vm_compute; reflexivity. Qed.
 
-(* every supported layout except ANSIC: an instant whose civil reading (in the zone it is written in:
-   the offset `off` if the layout carries one, else the local zone `loc`) lies in 1969..2068, at the
-   layout's precision, is parsed back from its Time.Format rendering.
-   Full statement (not discharged for L = ansic, "Mon Jan _2 15:04:05 2006"): the same without `L <> ansic`. *)
-Theorem c28_layout_roundtrip_partial : forall L loc off t,
-  In L layouts -> L <> ansic -> valid_zone loc -> valid_zone off ->
+(* EVERY supported layout (all 50): an instant whose civil reading (in the zone it is written in: the
+   offset `off` if the layout carries one, else the local zone `loc`) lies in 1969..2068, at the
+   layout's precision, is parsed back from its Time.Format rendering *)
+Theorem c28_layout_roundtrip : forall L loc off t,
+  In L layouts -> valid_zone loc -> valid_zone off ->
   in_range (t + zone_of L loc off) -> (has_sec L = false -> t mod 60 = 0) ->
   parse_layout loc L (format_layout loc off L t) = Some t.
 Proof. exact layout_roundtrip. Qed.
-Print Assumptions c28_layout_roundtrip_partial.
+Print Assumptions c28_layout_roundtrip.
 Example c28_layout_roundtrip_example :
   let L := nth 3 layouts [] in          (* RFC822Z  "02 Jan 06 15:04 -0700" *)
-  In L layouts /\ L <> ansic /\ valid_zone 3600 /\ valid_zone (-25200) /\ in_range (1709208000 + zone_of L 3600 (-25200))
+  let A := nth 1 layouts [] in          (* ANSIC    "Mon Jan _2 15:04:05 2006", one-digit day *)
+  In L layouts /\ valid_zone 3600 /\ valid_zone (-25200) /\ in_range (1709208000 + zone_of L 3600 (-25200))
   /\ format_layout 3600 (-25200) L 1709208000 = S_ "29 Feb 24 05:00 -0700"
-  /\ parse_layout 3600 L (S_ "29 Feb 24 05:00 -0700") = Some 1709208000.
+  /\ parse_layout 3600 L (S_ "29 Feb 24 05:00 -0700") = Some 1709208000
+  /\ In A layouts /\ in_range (1709726705 + zone_of A 3600 0)
+  /\ format_layout 3600 0 A 1709726705 = S_ "Wed Mar  6 13:05:05 2024"
+  /\ parse_layout 3600 A (S_ "Wed Mar  6 13:05:05 2024") = Some 1709726705.
 Proof.
   cbv zeta. repeat split; try (vm_compute; reflexivity); try (vm_compute; intuition congruence).
 Qed.
 
-(* the ordered first-match loop of ParseTimeArgument: unless another supported layout reads the text
-   as a different instant, the loop yields the instant that was written *)
-Theorem c28_first_match : forall L loc off t,
-  In L layouts -> L <> ansic -> valid_zone loc -> valid_zone off ->
+(* no supported layout renders to an all-digit text (each starts with a year / day / weekday element
+   and contains the literal ':'), and a rendered absolute time never takes the relative ('-') or the
+   Unix-integer (strconv.ParseInt) branch of ParseTimeArgument: it always reaches the first-match loop *)
+Theorem c28_layouts_not_numeric : forall L, In L layouts -> shape_ok L = true.
+Proof. exact layouts_shape. Qed.
+Print Assumptions c28_layouts_not_numeric.
+Theorem c28_absolute_reaches_loop : forall c L loc now, valid_civil c -> In L layouts ->
+  parse_time_argument loc now (fmt_elems c L)
+  = match first_match loc layouts (fmt_elems c L) with Some t => Ok t | None => Err end.
+Proof. exact pta_absolute_text. Qed.
+Print Assumptions c28_absolute_reaches_loop.
+
+(* ParseTimeArgument itself: unless another supported layout reads the text as a different instant,
+   the rendered instant is what ParseTimeArgument returns *)
+Theorem c28_first_match : forall L loc off now t,
+  In L layouts -> valid_zone loc -> valid_zone off ->
   in_range (t + zone_of L loc off) -> (has_sec L = false -> t mod 60 = 0) ->
   (forall L', In L' layouts -> parse_layout loc L' (format_layout loc off L t) = None
                                \/ parse_layout loc L' (format_layout loc off L t) = Some t) ->
-  first_match loc layouts (format_layout loc off L t) = Some t.
-Proof. exact first_match_layout. Qed.
+  parse_time_argument loc now (format_layout loc off L t) = Ok t.
+Proof. exact pta_layout. Qed.
 Print Assumptions c28_first_match.
+Example c28_first_match_nonvacuous :
+  (* RFC3339 text: accepted by exactly one layout *)
+  let s := format_layout 0 7200 (nth 0 layouts []) 1709208000 in
+  s = S_ "2024-02-29T14:00:00+02:00" /\
+  forallb (fun L' => match parse_layout 0 L' s with None => true | Some v => v =? 1709208000 end) layouts = true /\
+  parse_time_argument 0 5 s = Ok 1709208000.
+Proof. cbv zeta. repeat split; vm_compute; reflexivity. Qed.
 
 (* for ANY text: what the loop returns is the reading of the first layout in list order that accepts it *)
 Theorem c28_first_match_sound : forall loc Ls s t, first_match loc Ls s = Some t ->
